@@ -652,3 +652,706 @@ def _lds(vm, t):
 
 def _wvm(vm, s):
     return 'VM/src/vm.cpp:%d' % s.fn['loc'][1]
+
+
+# ============================================================================= shared helpers (tables)
+def chain_check(rule, model, f, g, steps, inst_prefix):
+    """steps: list of (name, event or None).  Requires each step to dominate the next and to be on
+    every path (relative to the first)."""
+    prev = None
+    for name, ev in steps:
+        if ev is None:
+            rule.violation('%s: %s' % (inst_prefix, name), 'step not found in %s' % f['q'], W(model, f))
+            return False
+    ok = True
+    for (n1, e1), (n2, e2) in zip(steps, steps[1:]):
+        good = g.dominates(e1, e2) and g.postdominates(e2, e1)
+        rule.check(good, '%s: %s < %s' % (inst_prefix, n1, n2), 'dominates and is always followed by it',
+                   '%s does not always precede %s (or can be skipped)' % (n1, n2), W(model, f, e2.e))
+        ok = ok and good
+    return ok
+
+
+def table_of(e):
+    """'line_info' / 'potential_breaks' / 'funcAddrs' ... when e is (an access into) that member"""
+    e = strip_casts(e)
+    seen = 0
+    while e is not None and seen < 6:
+        seen += 1
+        if e.get('k') == 'member':
+            return e['name'], e
+        if e.get('k') == 'call' and e.get('obj') is not None and (e.get('callee') or '').split('::')[-1] in ('operator[]', 'at', 'find', 'operator->', 'operator*'):
+            e = strip_casts(e['obj'])
+            continue
+        break
+    return None, None
+
+
+def hidden_file_rule(rule, m, rep):
+    """advanceLine returns early for the standard-macro file, before any breakpoint(); the literal equals
+    the key used by parse() and quoted by the prepended include phrase."""
+    al = m.fn('GenState::advanceLine')
+    rep.analysed(al)
+    g = m.cfg(al)
+    bps = g.calls_to('GenState::breakpoint')
+    rets = [n for n in g.returns()]
+    hidden = None
+    ret_ev = None
+    for cn in g.nodes:
+        if cn.kind == 'cond' and cn.exprs:
+            c = strip_casts(cn.exprs[0])
+            if c.get('k') == 'call' and c.get('op') == '==':
+                strs = [m.strval(al, a) for a in c['args']]
+                prm = [a for a in c['args'] if strip_casts(a).get('dk') == 'param']
+                lit = [s for s in strs if s is not None]
+                if prm and lit:
+                    # true branch must return before anything else
+                    for b in cn.succ:
+                        if b.kind == 'branch' and b.label is True:
+                            nxt = b.succ[0] if b.succ else None
+                            if nxt is not None and nxt.kind == 'stmt' and nxt.label == 'return':
+                                hidden = lit[0]
+                                ret_ev = cn
+    if hidden is None:
+        rule.violation('advanceLine: hidden file', 'no early return for the standard-macro file: its lines would get breakpoint sites', W(m, al))
+        return None
+    ok = all(ret_ev.id in g.dom[b.node.id] for b in bps) and len(bps) >= 1
+    rule.check(ok, 'advanceLine: early return dominates breakpoint()', 'file == "%s" returns before both breakpoint() calls' % hidden,
+               'a breakpoint() call is not guarded by the hidden-file test', W(m, al))
+    # parse.cpp side
+    pf = Facts(['Compiler/src/parse.cpp'])
+    rep.note_facts(pf)
+    parse = pf.fn('Theo::parse')
+    rep.analysed(parse)
+    keys = []
+    phrase = []
+    gm = GenModel.__new__(GenModel)
+    gm.facts = pf
+    gm._defs = {}
+    for e in walk_all_exprs(parse['body']):
+        if is_call(e, '::insert') and table_of(e.get('obj'))[0] is None and strip_casts(e['obj']).get('dk') == 'param':
+            for x in walk_expr(e):
+                if x.get('k') == 'str':
+                    keys.append(x['v'])
+                    break
+    for st in walk_stmts(parse['body']):
+        if st['k'] == 'decl':
+            for v in st['vars']:
+                if v.get('init') is not None:
+                    for x in walk_expr(v['init']):
+                        if x.get('k') == 'str' and x['v'].lower().startswith('include'):
+                            phrase.append(x['v'])
+    rule.check(hidden in keys, 'parse: standard-macro key', 'parse() inserts the standard macros under "%s", the name advanceLine hides' % hidden,
+               'parse() inserts the standard macros under %s but advanceLine hides "%s"' % (keys, hidden), 'Compiler/src/parse.cpp:%d' % parse['loc'][1])
+    rule.check(any(('"%s"' % hidden) in p for p in phrase), 'parse: include phrase', 'the prepended include names "%s"' % hidden,
+               'the prepended include phrase %s does not name "%s"' % (phrase, hidden), 'Compiler/src/parse.cpp:%d' % parse['loc'][1])
+    return hidden
+
+
+# ============================================================================= C08
+def c08(rep, tier):
+    m = GenModel()
+    rep.note_facts(m.facts)
+    me = m.may_emit()
+    A = rep.rule('C08.a', 'a site is entered into both tables with the index at which its instruction is emitted, '
+                          'under the current location', floor=4)
+    bp = m.fn('GenState::breakpoint')
+    rep.analysed(bp)
+    g = m.cfg(bp)
+    emits = [ev for ev in g.calls() if m.callee(ev.e) in m.emit_roots or m.callee(ev.e) == 'GenState::emit']
+    pb_emit = [ev for ev in emits if any(m.is_factory(x, 'PotentialBreak') for x in walk_expr(ev.e))]
+    if len(pb_emit) != 1:
+        A.unknown('breakpoint()', '%d PotentialBreak emissions' % len(pb_emit))
+    else:
+        em = pb_emit[0]
+
+        def position_ok(ev, e):
+            """e denotes the index of the instruction emitted at `em`"""
+            o = m.origin(bp, e)
+            if is_call(o, 'GenState::getNextPos'):
+                oe = g.ev(o) if o.get('sid') in g.by_sid else ev
+                return g.dominates(oe, em) and not any(g.can_follow(oe, x) and g.can_follow(x, em) and x is not em for x in emits)
+            if o is not None and o.get('k') == 'bin' and o['op'] == '-' and is_call(strip_casts(o['l']), 'GenState::getNextPos') \
+                    and strip_casts(o['r']).get('k') == 'int' and strip_casts(o['r'])['v'] == 1:
+                return g.dominates(em, g.ev(strip_casts(o['l'])))
+            return False
+        li = pbk = None
+        bpvars = set()
+        for ev in g.events:
+            e = ev.e
+            # line_info[K] = bp   (operator= on BreakPoint or plain assign)
+            tgt = val = None
+            if e.get('k') == 'assign':
+                tgt, val = strip_casts(e['l']), e['r']
+            elif e.get('k') == 'call' and m.callee(e).endswith('::operator=') and e.get('obj') is not None:
+                tgt, val = strip_casts(e['obj']), e['args'][0]
+            if tgt is not None and is_call(tgt, '::operator[]') and table_of(tgt['obj'])[0] == 'line_info':
+                li = (ev, tgt['args'][0], val)
+            if e.get('k') == 'call' and m.callee(e).endswith('::push_back') and e.get('obj') is not None:
+                o = strip_casts(e['obj'])
+                if is_call(o, '::operator[]') and table_of(o['obj'])[0] == 'potential_breaks':
+                    pbk = (ev, e['args'][0], o['args'][0])
+        if li is None or pbk is None:
+            A.violation('breakpoint(): both tables', 'line_info update %s, potential_breaks update %s' % (
+                'found' if li else 'missing', 'found' if pbk else 'missing'), W(m, bp))
+        else:
+            A.check(position_ok(li[0], li[1]) and g.on_all_paths(li[0]), 'breakpoint(): line_info key', 'key = index of the emitted POTENTIAL_BREAK',
+                    'line_info key %s is not the index of the emitted instruction' % show(li[1]), W(m, bp, li[0].e))
+            A.check(position_ok(pbk[0], pbk[1]) and g.on_all_paths(pbk[0]), 'breakpoint(): site list entry', 'pushed value = index of the emitted POTENTIAL_BREAK',
+                    'pushed site %s is not the index of the emitted instruction' % show(pbk[1]), W(m, bp, pbk[0].e))
+            same = m.same_var(li[2], pbk[2])
+            A.check(same, 'breakpoint(): one location', 'the location stored in line_info is the key of potential_breaks',
+                    'tables are updated with different locations: %s vs %s' % (show(li[2]), show(pbk[2])), W(m, bp))
+            o = m.origin(bp, pbk[2])
+            okfs = o is not None and o.get('k') == 'init' and dict((n, field_chain(v)[1]) for n, v in o['fields']) == {'file': ['fs', 'name'], 'line': ['fs', 'line']}
+            A.check(okfs, 'breakpoint(): location is the current position', '{file = fs.name, line = fs.line}',
+                    'location is %s, not the current file state' % show(o), W(m, bp))
+    # ---- b exact removal
+    B = rep.rule('C08.b', 'a function that pops a POTENTIAL_BREAK removes exactly that index from line_info and exactly '
+                          'that element from its location\'s site list; a whole location is erased only when its list is empty', floor=2)
+    poppers = []
+    for f in m.all_fns():
+        for e in walk_all_exprs(f['body']):
+            if is_call(e, '::pop_back') and e.get('obj') is not None and field_chain(e['obj'])[1][-2:] == ['out', 'code'] or \
+                    (is_call(e, '::pop_back') and e.get('obj') is not None and field_chain(e['obj'])[1][-1:] == ['code']):
+                poppers.append((f, e))
+            if is_call(e, '::erase') and e.get('obj') is not None and field_chain(e['obj'])[1][-1:] == ['code']:
+                B.unknown('%s: code.erase' % f['q'], 'instruction removal by erase not supported')
+    for f, pop in poppers:
+        rep.analysed(f)
+        gg = m.cfg(f)
+        popev = gg.ev(pop)
+        li_er = []
+        pb_map_er = []
+        pb_elem = []
+        for ev in gg.calls():
+            e = ev.e
+            c = m.callee(e).split('::')[-1]
+            if e.get('obj') is None:
+                continue
+            o = strip_casts(e['obj'])
+            tname, _ = table_of(o)
+            direct = field_chain(o)[1][-1:]
+            if c == 'erase' and direct == ['line_info']:
+                li_er.append(ev)
+            elif c in ('erase', 'clear', 'extract') and direct == ['potential_breaks']:
+                pb_map_er.append(ev)
+            elif c in ('pop_back', 'erase') and direct != ['potential_breaks']:
+                # element-level removal on the vector of one location
+                oo = m.origin(f, o)
+                if tname == 'potential_breaks' or table_of(oo)[0] == 'potential_breaks':
+                    pb_elem.append(ev)
+        inst = '%s: pop of a breakpoint instruction' % f['q']
+        why = []
+        if len(li_er) != 1:
+            why.append('%d erase(s) on line_info' % len(li_er))
+        if not pb_elem:
+            if pb_map_er:
+                why.append('the whole location is erased from potential_breaks (%s): other sites of the same line are lost while '
+                           'line_info still reports them' % show(pb_map_er[0].e)[:70])
+            else:
+                why.append('the popped site stays listed in potential_breaks')
+        for ev in pb_map_er:
+            guarded = False
+            for cond, label, cn in gg.guards_of(ev):
+                c = strip_casts(cond)
+                if label is True and (is_call(c, '::empty') or (c.get('k') == 'bin' and c['op'] == '==' and is_call(strip_casts(c['l']), '::size'))):
+                    guarded = True
+            if pb_elem and not guarded:
+                why.append('map-level erase of the location is not guarded by an emptiness test of its site list')
+        B.check(not why, inst, 'index removed from line_info; site removed element-wise; location erased only when empty',
+                '; '.join(why), W(m, f, pop),
+                witness={'input': 'main: PROGRAM g IN a DO\\nx0 := include "c"\\nEND\\nPROGRAM include "c" IN a DO\\nx0 := 1\\nEND\\nx1 := 2 ; file c: h',
+                         'effect': 'line_info keeps c:1 for an earlier site, potential_breaks no longer lists c:1'} if why else None)
+        # the popped instruction is a POTENTIAL_BREAK (guard)
+        okg = any(label is True and 'POTENTIAL_BREAK' in show(cond) for cond, label, cn in gg.guards_of(popev))
+        B.check(okg, '%s: only POTENTIAL_BREAK is popped' % f['q'], 'pop guarded by a test of the last opcode',
+                'instruction popped without checking that it is a breakpoint site', W(m, f, pop))
+    # ---- c who may write
+    Cw = rep.rule('C08.c', 'the two tables are written, and PotentialBreak() is created, only by the site bookkeeping; '
+                           'BREAK is never emitted by the compiler', floor=3)
+    allowed = set(['GenState::breakpoint'] + [f['q'] for f, _ in poppers])
+    MUT = ('push_back', 'erase', 'insert', 'clear', 'emplace', 'operator=', 'pop_back', 'swap', 'resize', 'extract', 'merge', 'insert_or_assign', 'try_emplace')
+    for f in m.all_fns():
+        for e in walk_all_exprs(f['body']):
+            if e.get('k') == 'call' and e.get('obj') is not None and m.callee(e).split('::')[-1] in MUT:
+                tname, _ = table_of(e['obj'])
+                o2 = m.origin(f, strip_casts(e['obj']))
+                tname = tname if tname in ('line_info', 'potential_breaks') else table_of(o2)[0]
+                if tname in ('line_info', 'potential_breaks'):
+                    if f['q'] == 'Theo::gen' and False:
+                        continue
+                    Cw.check(f['q'] in allowed, '%s: %s.%s' % (f['q'], tname, m.callee(e).split('::')[-1]),
+                             'site bookkeeping function', 'table %s modified outside the site bookkeeping' % tname, W(m, f, e))
+            if e.get('k') == 'call' and m.is_factory(e, 'PotentialBreak'):
+                Cw.check(f['q'] == 'GenState::breakpoint', '%s: PotentialBreak()' % f['q'], 'only breakpoint() creates sites',
+                         'a POTENTIAL_BREAK is created outside breakpoint(): it would be an unlisted site', W(m, f, e))
+            if e.get('k') == 'call' and m.is_factory(e, 'Break'):
+                Cw.violation('%s: Break()' % f['q'], 'the compiler emits an armed BREAK', W(m, f, e))
+            if e.get('k') == 'assign':
+                tn = table_of(e['l'])[0]
+                l = strip_casts(e['l'])
+                if is_call(l, '::operator[]') and tn in ('line_info', 'potential_breaks'):
+                    Cw.check(f['q'] in allowed, '%s: %s[...] = ...' % (f['q'], tn), 'site bookkeeping function',
+                             'table %s modified outside the site bookkeeping' % tn, W(m, f, e))
+    # ---- d hidden file
+    Dd = rep.rule('C08.d', 'lines of the hidden standard-macro file never get a site: advanceLine returns early for exactly '
+                           'the file name parse() uses', floor=3)
+    hidden_file_rule(Dd, m, rep)
+    # ---- e locations are token positions
+    E = rep.rule('C08.e', 'the current location is only ever set from (line, file) of one syntax-tree node; node positions '
+                          'are copied pairwise from one token or node', floor=10)
+    al = m.fn('GenState::advanceLine')
+    for f in m.all_fns():
+        for e in walk_all_exprs(f['body']):
+            if e.get('k') == 'assign':
+                root, path = field_chain(e['l'])
+                if path[-2:-1] == ['fs'] or path[:1] == ['fs'] and len(path) == 2:
+                    okk = f['q'] == 'GenState::advanceLine' and strip_casts(e['r']).get('dk') == 'param'
+                    E.check(okk, '%s: fs.%s = %s' % (f['q'], path[-1], show(e['r'])), 'set from advanceLine\'s parameter',
+                            'current location written from %s' % show(e['r']), W(m, f, e))
+    for (f, call) in callers_of(m, 'GenState::advanceLine'):
+        a0, a1 = field_chain(call['args'][0]), field_chain(call['args'][1])
+        okk = a0[1] == ['line'] and a1[1] == ['file'] and a0[0] is not None and a1[0] is not None and m.same_var(a0[0], a1[0]) and \
+            'Node' in (strip_casts(a0[0]).get('cty') or '')
+        E.check(okk, '%s: advanceLine(%s, %s)' % (f['q'], show(call['args'][0]), show(call['args'][1])), 'line and file of the same node',
+                'advanceLine is not called with (node->line, node->file) of one node', W(m, f, call))
+    pf = Facts(['Compiler/src/parse.cpp'])
+    rep.note_facts(pf)
+    n_mk = 0
+    for f in pf.functions_in('parse.cpp'):
+        for e in walk_all_exprs(f['body']):
+            if is_call(e, 'AST::mk') and len(e['args']) >= 3:
+                n_mk += 1
+                a0, a1 = field_chain(e['args'][1]), field_chain(e['args'][2])
+                same = a0[0] is not None and a1[0] is not None and show(strip_casts(a0[0])) == show(strip_casts(a1[0]))
+                okk = a0[1][-1:] == ['line'] and a1[1][-1:] == ['file'] and same
+                E.check(okk, '%s: mk(%s, %s, %s)' % (f['q'], show(e['args'][0]), show(e['args'][1]), show(e['args'][2])),
+                        'position copied pairwise from %s' % show(strip_casts(a0[0])),
+                        'node position (%s, %s) is not the (line, file) of one token/node' % (show(e['args'][1]), show(e['args'][2])),
+                        'Compiler/src/parse.cpp:%d' % e['loc'][0])
+    rep.extra['mk_sites'] = n_mk
+
+
+# ============================================================================= C16
+def find_factory_ev(m, g, name, pred=None):
+    out = [ev for ev in g.calls() if m.is_factory(ev.e, name) and (pred is None or pred(ev.e))]
+    return out
+
+
+def enclosing_emit(m, g, fac_ev):
+    """the emit/emitBackpatched call event that takes this factory call as argument"""
+    for ev in g.calls():
+        c = m.callee(ev.e)
+        if c in ('GenState::emit', 'GenState::emitBackpatched'):
+            if any(x is fac_ev.e for a in ev.e['args'] for x in walk_expr(a)):
+                return ev
+    return None
+
+
+def c16(rep, tier):
+    m = GenModel()
+    rep.note_facts(m.facts)
+    O1 = rep.rule('C16.O1', 'a program becomes callable only when its generation is finished: the routine table is written '
+                            'only in popSymbols, which dispatchProgram calls after the body and the RET', floor=3)
+    writers = set()
+    for f in m.all_fns():
+        for e in walk_all_exprs(f['body']):
+            tgt = None
+            if e.get('k') == 'assign':
+                tgt = strip_casts(e['l'])
+            elif e.get('k') == 'call' and m.callee(e).endswith('::operator=') and e.get('obj') is not None:
+                tgt = strip_casts(e['obj'])
+            if tgt is not None and is_call(tgt, '::operator[]') and table_of(tgt['obj'])[0] == 'funcAddrs':
+                writers.add(f['q'])
+                O1.check(f['q'] == 'GenState::popSymbols', '%s: funcAddrs[...] = ...' % f['q'], 'routine registered when finished',
+                         'routine table written outside popSymbols: a program could become callable early', W(m, f, e))
+            if e.get('k') == 'call' and e.get('obj') is not None and field_chain(e['obj'])[1][-1:] == ['funcAddrs'] and \
+                    m.callee(e).split('::')[-1] in ('insert', 'emplace', 'insert_or_assign', 'try_emplace', 'erase', 'clear', 'swap', 'operator='):
+                O1.check(f['q'] == 'GenState::popSymbols', '%s: funcAddrs.%s' % (f['q'], m.callee(e).split('::')[-1]), 'registration',
+                         'routine table modified outside popSymbols', W(m, f, e))
+    dp = m.fn('dispatchProgram')
+    rep.analysed(dp)
+    g = m.cfg(dp)
+    pops = g.calls_to('GenState::popSymbols')
+    bodies = [ev for ev in g.calls_to('dispatchVoid')]
+    rets = find_factory_ev(m, g, 'Ret')
+    if len(pops) >= 1 and len(bodies) == 1 and len(rets) == 1:
+        ret_emit = enclosing_emit(m, g, rets[0])
+        for pi, pop_ev in enumerate(pops):
+            O1.check(g.dominates(bodies[0], pop_ev) and ret_emit is not None and g.dominates(ret_emit, pop_ev),
+                     'dispatchProgram: registration after body%s' % ('' if pi == 0 else ' (#%d)' % (pi + 1)),
+                     'dispatchVoid(body) and emit(Ret) dominate popSymbols',
+                     'the routine is registered before its body is generated: recursion becomes possible', W(m, dp, pop_ev.e))
+        # the body is dispatched exactly the body node; entry recorded before body
+        entry = strip_casts(pops[-1].e['args'][0])
+        eo = m.origin(dp, entry)
+        okentry = is_call(eo, 'GenState::getNextPos') and g.dominates(g.ev(eo), bodies[0])
+        O1.check(okentry, 'dispatchProgram: entry address', 'entry = position before the body', 'entry address is %s' % show(eo), W(m, dp, pops[-1].e))
+    else:
+        O1.unknown('dispatchProgram', 'popSymbols/body/Ret not recognised: %d/%d/%d' % (len(pops), len(bodies), len(rets)))
+    O2 = rep.rule('C16.O2', 'EXEC is emitted only after a successful lookup of the callee and enters the looked-up entry', floor=1)
+    for f in m.all_fns():
+        gg = None
+        for e in walk_all_exprs(f['body']):
+            if e.get('k') == 'call' and m.is_factory(e, 'Exec'):
+                gg = gg or m.cfg(f)
+                ev = gg.ev(e)
+                root, path = field_chain(e['args'][0])
+                o = m.origin(f, root) if root is not None else None
+                o = strip_copies(o) if o is not None else None
+                ok = path == ['ind'] and is_call(o, '::operator[]') and table_of(o['obj'])[0] == 'funcAddrs'
+                guarded = False
+                if ok:
+                    for cond, label, cn in gg.guards_of(ev):
+                        fnd = [x for x in walk_expr(cond) if is_call(x, '::find') and table_of(x['obj'])[0] == 'funcAddrs']
+                        if fnd and label is False and m.same_var(fnd[0]['args'][0], o['args'][0]):
+                            guarded = True
+                        cnt = [x for x in walk_expr(cond) if (is_call(x, '::contains') or is_call(x, '::count')) and table_of(x['obj'])[0] == 'funcAddrs']
+                        if cnt and label is True and m.same_var(cnt[0]['args'][0], o['args'][0]):
+                            guarded = True
+                O2.check(ok and guarded, '%s: Exec(%s)' % (f['q'], show(e['args'][0])), 'entry of the record found under the called name',
+                         'EXEC target %s is not the entry of a successfully looked-up routine' % show(e['args'][0]), W(m, f, e))
+    O3 = rep.rule('C16.O3', 'the loop counter is a private register: unnameable by users, unique per loop, initialised from the '
+                            'bound before the loop head, tested at the head and only decremented before the back jump', floor=8)
+    loop_rules(O3, m, rep)
+
+
+def loop_rules(R, m, rep):
+    dl = m.fn('dispatchLoop')
+    rep.analysed(dl)
+    g = m.cfg(dl)
+    jc = find_factory_ev(m, g, 'JmpC')
+    add = find_factory_ev(m, g, 'Add')
+    jm = find_factory_ev(m, g, 'Jmp')
+    dvs = g.calls_to('dispatchValue')
+    body = g.calls_to('dispatchVoid')
+    if not (len(jc) == 1 and len(add) == 1 and len(jm) == 1 and len(dvs) == 1 and len(body) == 1):
+        R.unknown('dispatchLoop', 'lowering shape not recognised (JmpC/Add/Jmp/dispatchValue/dispatchVoid = %d/%d/%d/%d/%d)' % (
+            len(jc), len(add), len(jm), len(dvs), len(body)))
+        return
+    jc, add, jm, dv, body = jc[0], add[0], jm[0], dvs[0], body[0]
+    cvar = strip_casts(jc.e['args'][1])
+    ok = cvar.get('k') == 'ref' and all(m.same_var(cvar, a) for a in (add.e['args'][0], add.e['args'][1], dv.e['args'][2]))
+    R.check(ok, 'dispatchLoop: one counter', 'the register tested, decremented and initialised is the same variable %s' % show(cvar),
+            'JmpC tests %s, Add writes %s from %s, the bound is evaluated into %s' % (show(jc.e['args'][1]), show(add.e['args'][0]), show(add.e['args'][1]), show(dv.e['args'][2])),
+            W(m, dl, jc.e))
+    dec = strip_casts(add.e['args'][2])
+    isneg1 = (dec.get('k') == 'un' and dec['op'] == '-' and dec['e'].get('k') == 'int' and dec['e']['v'] == 1) or (dec.get('k') == 'int' and dec['v'] == -1)
+    R.check(isneg1, 'dispatchLoop: decrement', 'Add(counter, counter, -1)', 'counter changes by %s per iteration' % show(dec), W(m, dl, add.e))
+    # private name
+    co = m.origin(dl, cvar)
+    okname = False
+    lits = []
+    uses_loops = False
+    if is_call(co, 'FunctionGenState::fetchVariableRegister'):
+        nm = m.origin(dl, co['args'][0])
+        for x in walk_expr(nm):
+            if x.get('k') == 'str':
+                lits.append(x['v'])
+            if x.get('k') == 'member' and x['name'] == 'loops':
+                uses_loops = True
+        import re
+        okname = any(re.search(r'[^A-Za-z0-9_]', s) for s in lits)
+    R.check(is_call(co, 'FunctionGenState::fetchVariableRegister') and okname, 'dispatchLoop: unnameable counter',
+            'variable name contains a character no identifier can contain (%s)' % [s for s in lits][:2],
+            'the counter register is %s: a user variable could alias it' % show(co), W(m, dl, co if co else dl))
+    incs = [ev for ev in g.events if ev.e.get('k') == 'un' and ev.e['op'] == '++' and field_chain(ev.e['e'])[1][-1:] == ['loops']]
+    R.check(uses_loops and len(incs) == 1 and g.on_all_paths(incs[0]), 'dispatchLoop: unique counter',
+            'name includes gs.loops, incremented once per lowering', 'counter name is not unique per loop (nested loops would share it)', W(m, dl))
+    # order
+    sl = g.calls_to('GenState::setLabel')
+    start_l = strip_casts(jm.e['args'][0])
+    end_l = strip_casts(jc.e['args'][0])
+    set_start = [ev for ev in sl if m.same_var(ev.e['args'][0], start_l)]
+    set_end = [ev for ev in sl if m.same_var(ev.e['args'][0], end_l)]
+    if len(set_start) != 1 or len(set_end) != 1:
+        R.violation('dispatchLoop: labels', 'back-jump/exit labels are not each set once', W(m, dl))
+        return
+    steps = [('bound -> counter', dv), ('head label', set_start[0]), ('JmpC(end, counter)', enclosing_emit(m, g, jc)),
+             ('body', body), ('decrement', enclosing_emit(m, g, add)), ('Jmp(head)', enclosing_emit(m, g, jm)), ('end label', set_end[0])]
+    chain_check(R, m, dl, g, steps, 'dispatchLoop')
+    # the bound expression is the loop node's left child, the body its right child
+    lb = field_chain(dv.e['args'][1])
+    bb = field_chain(body.e['args'][1])
+    R.check(lb[1] == ['left'] and bb[1] == ['right'], 'dispatchLoop: operands', 'bound = node->left, body = node->right',
+            'bound/body children swapped or wrong', W(m, dl, dv.e))
+
+
+# ============================================================================= C07
+def c07(rep, tier):
+    m = GenModel()
+    rep.note_facts(m.facts)
+    me = m.may_emit()
+    A = rep.rule('C07.a', 'breakpoint() is reached only through advanceLine after the location was updated; both dispatchers '
+                          'advance the line before emitting anything', floor=4)
+    for (f, call) in callers_of(m, 'GenState::breakpoint'):
+        A.check(f['q'] == 'GenState::advanceLine', '%s calls breakpoint()' % f['q'], 'only advanceLine creates sites',
+                'a site is created without moving the current location', W(m, f, call))
+    al = m.fn('GenState::advanceLine')
+    ga = m.cfg(al)
+    for ev in ga.calls_to('GenState::breakpoint'):
+        asg = [x for x in ga.events if x.e.get('k') == 'assign' and field_chain(x.e['l'])[1][-2:] == ['fs', 'line'] and ga.dominates(x, ev)]
+        A.check(bool(asg), 'advanceLine: fs.line set before breakpoint()', 'location updated first', 'breakpoint() uses a stale line', W(m, al, ev.e))
+    for q in ('dispatchVoid', 'dispatchValue'):
+        f = m.fn(q)
+        rep.analysed(f)
+        g = m.cfg(f)
+        adv = g.calls_to('GenState::advanceLine')
+        em = [ev for ev in m.emission_events(f) if ev not in adv]
+        ok = len(adv) == 1 and all(g.dominates(adv[0], ev) for ev in em)
+        A.check(ok, '%s: advanceLine first' % q, 'advanceLine dominates the %d emitting calls' % len(em),
+                'an emission can precede advanceLine: the statement would be attributed to the previous line', W(m, f))
+    B = rep.rule('C07.b', 'the hidden standard-macro file never produces a stop', floor=3)
+    hidden_file_rule(B, m, rep)
+    Cm = rep.rule('C07.c', 'a label resolves to the breakpoint site of its line when one was just emitted', floor=2)
+    dm = m.fn('dispatchMark')
+    sets = m.cfg(dm).calls_to('GenState::setLabel')
+    Cm.check(len(sets) == 1 and is_call(strip_casts(sets[0].e['args'][1]), 'GenState::getMarkPos'), 'dispatchMark: position', 'getMarkPos()',
+             'the mark is set to %s: a jump to it skips the stop on its line' % (show(sets[0].e['args'][1]) if sets else None), W(m, dm))
+    gm = m.fn('GenState::getMarkPos')
+    # summary: if last op is POTENTIAL_BREAK -> next-1 else next
+    okmp = False
+    for st in walk_stmts(gm['body']):
+        if st['k'] == 'if' and 'POTENTIAL_BREAK' in show(st['c']) and is_call(strip_casts(st['c']['l']) if st['c'].get('k') == 'bin' else None, '') is False:
+            pass
+    ifs = [st for st in walk_stmts(gm['body']) if st['k'] == 'if']
+    rets = [st for st in walk_stmts(gm['body']) if st['k'] == 'return']
+    if len(ifs) == 1 and len(rets) == 2:
+        c = ifs[0]['c']
+        backs = [x for x in walk_expr(c) if is_call(x, '::back') and field_chain(x['obj'])[1][-1:] == ['code']]
+        ispb = 'POTENTIAL_BREAK' in show(c) and c.get('k') == 'bin' and c['op'] == '=='
+        tr = [st for st in walk_stmts(ifs[0]['t']) if st['k'] == 'return']
+        r_in = strip_casts(tr[0]['e']) if tr else None
+        r_out = strip_casts([r for r in rets if r not in tr][0]['e']) if tr else None
+        okmp = bool(backs) and ispb and r_in is not None and r_in.get('k') == 'bin' and r_in['op'] == '-' and \
+            is_call(strip_casts(r_in['l']), 'GenState::getNextPos') and strip_casts(r_in['r']).get('v') == 1 and is_call(r_out, 'GenState::getNextPos')
+    Cm.check(okmp, 'getMarkPos: summary', 'index of the last instruction if it is a POTENTIAL_BREAK, else the next index',
+             'getMarkPos no longer resolves to the site just emitted', W(m, gm))
+    D = rep.rule('C07.d', 'the site emitted for a PROGRAM header is removed before the routine is lowered', floor=1)
+    dvd = m.fn('dispatchVoid')
+    g = m.cfg(dvd)
+    rm = g.calls_to('GenState::removeTopPotBreak')
+    dpc = g.calls_to('dispatchProgram')
+    adv = g.calls_to('GenState::advanceLine')
+    if len(dpc) == 1:
+        ok = len(rm) >= 1 and any(g.dominates(r, dpc[0]) and g.dominates(adv[0], r) and
+                                  not [x for x in m.emission_events(dvd) if g.can_follow(r, x) and g.can_follow(x, dpc[0]) and x is not dpc[0] and x is not r]
+                                  for r in rm) if adv else False
+        if not ok:
+            # maybe inside dispatchProgram before its first emission
+            dp = m.fn('dispatchProgram')
+            g2 = m.cfg(dp)
+            rm2 = g2.calls_to('GenState::removeTopPotBreak')
+            em2 = [x for x in m.emission_events(dp)]
+            ok = len(rm2) >= 1 and all(g2.dominates(rm2[0], x) for x in em2 if x is not rm2[0])
+        D.check(ok, 'PROGRAM: header site removed', 'removeTopPotBreak after the header\'s advanceLine, before the first emission of the routine',
+                'the PROGRAM header keeps a breakpoint site: stepping would stop on definitions', W(m, dvd, dpc[0].e))
+    else:
+        D.unknown('dispatchVoid', 'dispatchProgram call not unique')
+    E = rep.rule('C07.e', 'END keywords of LOOP, WHILE and PROGRAM are kept as marks so that their line gets a site', floor=3)
+    pf = Facts(['Compiler/src/parse.cpp'])
+    rep.note_facts(pf)
+    pm = GenModel.__new__(GenModel)
+    pm.facts, pm._defs, pm._cfg = pf, {}, {}
+    found = {}
+    for f in pf.functions_in('parse.cpp'):
+        for e in walk_all_exprs(f['body']):
+            if is_call(e, 'AST::mk') and 'MARK' in show(e['args'][0]):
+                child = strip_casts(e['args'][4])
+                o = pm.origin(f, child) if child.get('k') == 'ref' else child
+                # the END variable may be reassigned (end = mk(MARK, ... end ...)): look at all defs
+                srcs = []
+                if child.get('k') == 'ref':
+                    for kind, rhs, _ in pm.defs(f).get(child['d'], []):
+                        srcs.append(strip_casts(rhs))
+                isend = any(is_call(s, 'ParseState::matchmk') and 'END' in show(s['args'][0]) for s in srcs)
+                linesrc = field_chain(e['args'][1])
+                if isend and linesrc[1] == ['line'] and pm.same_var(linesrc[0], child):
+                    # which construct? nearest enclosing switch case label
+                    found.setdefault(f['q'], []).append(e)
+    n_end = sum(len(v) for v in found.values())
+    wanted = {'P': 2, 'S': 1}
+    for q, n in wanted.items():
+        E.check(len(found.get(q, [])) >= n, '%s: END marks' % q, '%d MARK node(s) built from the END token with its own line' % len(found.get(q, [])),
+                'only %d of %d END marks are built in %s: the END line gets no site' % (len(found.get(q, [])), n, q), 'Compiler/src/parse.cpp')
+    E.check(n_end >= 3, 'END marks total', '%d' % n_end, 'expected 3 END marks (LOOP, WHILE, PROGRAM), found %d' % n_end, 'Compiler/src/parse.cpp')
+    F = rep.rule('C07.f', 'the stack map lists every non-temporary register by name; only variable allocation produces them', floor=3)
+    pop = m.fn('GenState::popSymbols')
+    okmap = False
+    for st in walk_stmts(pop['body']):
+        if st['k'] == 'for':
+            bound = show(st['c'])
+            if 'register_state' in bound and 'size' in bound:
+                ifs = [s2 for s2 in walk_stmts(st['body']) if s2['k'] == 'if']
+                for i2 in ifs:
+                    c = strip_casts(i2['c'])
+                    neg = c.get('k') == 'un' and c['op'] == '!' and field_chain(c['e'])[1][-1:] == ['is_temp']
+                    asg = [x for x in walk_all_exprs(i2['t']) if (x.get('k') == 'call' and m.callee(x).endswith('::operator=')) or x.get('k') == 'assign']
+                    tomap = [x for x in asg if 'map' in show(x.get('obj') or x.get('l')) and 'name' in show(x)]
+                    if neg and tomap and i2.get('e') is None:
+                        okmap = True
+    F.check(okmap, 'popSymbols: stack map', 'every register with !is_temp is mapped to its name', 'stack map construction not recognised / filtered differently', W(m, pop))
+    for f in m.all_fns():
+        for e in walk_all_exprs(f['body']):
+            if is_call(e, '::push_back') and e.get('obj') is not None and field_chain(e['obj'])[1][-1:] == ['register_state']:
+                init = strip_casts(e['args'][0])
+                init = strip_copies(init)
+                flds = dict(init['fields']) if init.get('k') == 'init' else {}
+                istemp = strip_casts(flds.get('is_temp')) if flds else None
+                if istemp is None or istemp.get('k') != 'bool':
+                    F.unknown('%s: register_state.push_back' % f['q'], 'is_temp not a literal')
+                    continue
+                if istemp['v']:
+                    F.check(f['q'] == 'FunctionGenState::fetchTemporary', '%s: temporary register' % f['q'], 'temporaries come from fetchTemporary', 'temporary created elsewhere', W(m, f, e))
+                else:
+                    F.check(f['q'] in ('FunctionGenState::fetchVariableRegister', 'dispatchArgs'), '%s: variable register' % f['q'],
+                            'named registers come from variable/parameter allocation', 'a named register is created in %s' % f['q'], W(m, f, e))
+
+
+# ============================================================================= C20 (compiler side)
+CONV = ('strtol', 'std::strtol', 'strtoll', 'std::strtoll', 'std::stoi', 'std::stol', 'atoi', 'std::atoi', 'strtoul', 'std::strtoul', 'std::stoul', 'atol', 'std::stoll')
+
+
+def conversion_sites(facts, units_suffix):
+    out = []
+    for f in facts.functions:
+        if not any(f['file'].endswith(s) for s in units_suffix) or f['tmpl'] not in ('none', 'inst'):
+            continue
+        for e in walk_all_exprs(f['body']):
+            if e.get('k') == 'call' and (e.get('callee') or '') in CONV:
+                out.append((f, e))
+    return out
+
+
+def checked_conversion(gm, f, call):
+    """the converted value flows into `v >= INT_MAX`-style test whose true branch records an error"""
+    g = gm.cfg(f)
+    # variable receiving the result
+    var = None
+    for d, ds in gm.defs(f).items():
+        for kind, rhs, decl in ds:
+            if rhs is not None and any(x is call for x in walk_expr(rhs)):
+                var = d
+    if var is None:
+        return False, 'result not stored'
+    for cn in g.nodes:
+        if cn.kind == 'cond' and cn.exprs:
+            c = strip_casts(cn.exprs[0])
+            if c.get('k') == 'bin' and c['op'] in ('>=', '>'):
+                l, r = strip_casts(c['l']), strip_casts(c['r'])
+                lim = r.get('v') if r.get('k') == 'int' else None
+                if l.get('k') == 'ref' and l.get('d') == var and lim is not None:
+                    bound_ok = (c['op'] == '>=' and lim <= 2147483647) or (c['op'] == '>' and lim <= 2147483646)
+                    # true branch records an error
+                    err = False
+                    for b in cn.succ:
+                        if b.kind == 'branch' and b.label is True:
+                            for ev in g.calls():
+                                if b.id in g.dom[ev.node.id] and (gm.callee(ev.e) in ('GenState::err', 'GenState::verr') or
+                                                                 (gm.callee(ev.e).endswith('::push_back') and 'error' in show(ev.e['obj']).lower())):
+                                    err = True
+                    if bound_ok and err:
+                        return True, 'tested %s %s %d, error recorded' % (l['name'], c['op'], lim)
+                    if not bound_ok:
+                        return False, 'range test %s lets values >= 2^31-1 through' % show(c)
+    return False, 'no range test on the converted value'
+
+
+def c20_gen(rep, tier):
+    facts = Facts(['Compiler/src/gen.cpp', 'Compiler/src/macro.cpp'] + (['Compiler/src/parse.cpp', 'Compiler/src/scan.cpp'] if tier == 'thorough' else []))
+    rep.note_facts(facts)
+    gm = GenModel(facts=Facts(['Compiler/src/gen.cpp']))
+    mm = GenModel.__new__(GenModel)
+    mm.facts = facts
+    mm._defs, mm._cfg = {}, {}
+    mm.fns = {f['sig']: f for f in facts.functions}
+    A2 = rep.rule('C20.A2', 'every text-to-integer conversion in the compiler is range-checked (>= INT_MAX records an error) or is a '
+                            'tabled re-read of an already checked token', floor=4)
+    sites = conversion_sites(facts, ('gen.cpp', 'macro.cpp', 'parse.cpp', 'scan.cpp'))
+    checked_fns = set()
+    silent_fns = set()
+    for f, call in sites:
+        model = mm
+        ok, why = checked_conversion(model, f, call)
+        inst = '%s(%s): %s' % (f['q'], os.path.basename(f['file']), show(call)[:60])
+        if ok:
+            checked_fns.add((f['q'], f['file']))
+            A2.ok(inst, why, '%s:%d' % (os.path.relpath(f['file'], facts.repo), call['loc'][0]))
+        else:
+            silent_fns.add((f['q'], f['file']))
+            # tabled exception: exactly one call site whose argument was converted by the checked sibling before
+            users = [(g2, c2) for g2 in facts.functions for c2 in walk_all_exprs(g2['body'])
+                     if c2.get('k') == 'call' and c2.get('callee') == f['q'] and g2['file'] == f['file']]
+            exc = silent_exception(facts, mm, f, users)
+            if exc[0]:
+                A2.ok(inst, 'silent conversion, accepted: ' + exc[1], '%s:%d' % (os.path.relpath(f['file'], facts.repo), call['loc'][0]))
+            else:
+                A2.violation(inst, 'unchecked conversion (%s); %s' % (why, exc[1]), '%s:%d' % (os.path.relpath(f['file'], facts.repo), call['loc'][0]))
+    A3 = rep.rule('C20.A3', 'constants handed to Add / LoadConstant are literals, checked conversions, or their negation', floor=5)
+    g = gm
+    for f in g.all_fns():
+        for e in walk_all_exprs(f['body']):
+            if e.get('k') == 'call' and (g.is_factory(e, 'Add') or g.is_factory(e, 'LoadConstant')):
+                idx = [i for i, t in enumerate(e['pty']) if 'Constant' in t]
+                for i in idx:
+                    a = strip_casts(e['args'][i])
+                    neg = False
+                    if a.get('k') == 'un' and a['op'] == '-':
+                        neg = True
+                        a = strip_casts(a['e'])
+                    o = g.origin(f, a)
+                    inst = '%s: %s const %s' % (f['q'], g.callee(e).split('::')[-1], show(e['args'][i]))
+                    if o.get('k') == 'int':
+                        v = -o['v'] if neg else o['v']
+                        A3.check(-2147483646 <= v <= 2147483646, inst, 'literal %d' % v, 'literal out of range', W(g, f, e))
+                    elif o.get('k') == 'call' and (o.get('callee'), f['file']) in checked_fns:
+                        A3.ok(inst, '%sresult of the checked conversion %s (in [0, 2^31-2] when no error)' % ('negated ' if neg else '', o['callee']), W(g, f, e))
+                    elif o.get('k') == 'call' and (o.get('callee'), f['file']) in silent_fns:
+                        A3.ok(inst, '%ssilent re-read %s of a token already range-checked on this path (C20.A2 exception)' % ('negated ' if neg else '', o['callee']), W(g, f, e))
+                    else:
+                        A3.violation(inst, 'constant %s is neither a literal nor a checked conversion' % show(o), W(g, f, e))
+    A4 = rep.rule('C20.A4', 'macro priorities and insertion indices go through the checked conversion', floor=2)
+    for f in facts.functions_in('macro.cpp'):
+        for e in walk_all_exprs(f['body']):
+            if e.get('k') == 'assign' and field_chain(e['l'])[1][-1:] == ['priority']:
+                r = strip_casts(e['r'])
+                A4.check(r.get('k') == 'call' and (r.get('callee'), f['file']) in checked_fns, '%s: priority' % f['q'], 'checked conversion',
+                         'priority converted by %s' % show(r), 'Compiler/src/macro.cpp:%d' % e['loc'][0])
+        if f['q'] == 'Theo::extract_macros':
+            for st in walk_stmts(f['body']):
+                if st['k'] == 'decl':
+                    for v in st['vars']:
+                        init = strip_casts(v.get('init'))
+                        if init is not None and init.get('k') == 'call' and 'strToInt' in (init.get('callee') or ''):
+                            A4.check((init.get('callee'), f['file']) in checked_fns, 'extract_macros: insertion index', 'checked conversion',
+                                     'insertion index converted by %s' % init.get('callee'), 'Compiler/src/macro.cpp:%d' % v['loc'][0])
+
+
+def silent_exception(facts, mm, f, users):
+    """Re-verifies the two tabled silent conversions structurally."""
+    if len(users) != 1:
+        return False, 'the silent helper has %d call sites (exception covers exactly one)' % len(users)
+    g2, c2 = users[0]
+    if f['file'].endswith('gen.cpp'):
+        # argument node must have been converted by dispatchCallArgs -> dispatchValue -> strToInt on the same path:
+        # the call is dominated by dispatchCallArgs(gs, c->right, arglocs) and guarded by arglocs.size() == 2 && ... NUMBER
+        gg = mm.cfg(g2)
+        ev = gg.ev(c2)
+        dca = [x for x in gg.calls() if (x.e.get('callee') or '') == 'dispatchCallArgs' and gg.dominates(x, ev)]
+        guards = gg.guards_of(ev)
+        num = any(label is True and 'register_constant_operation' in show(cond) or 'NUMBER' in show(cond) for cond, label, cn in guards)
+        if dca and num:
+            return True, 'the NUMBER node was converted by strToInt during dispatchCallArgs, which dominates this call'
+        return False, 'not dominated by dispatchCallArgs + NUMBER-shape guard'
+    if f['file'].endswith('macro.cpp'):
+        # get_replacement INSERTION index: extract_macros validated every INSERTION token with the checked conversion
+        em = [x for x in facts.functions if x['q'] == 'Theo::extract_macros']
+        if em:
+            ok = any(x.get('k') == 'call' and 'strToInt' in (x.get('callee') or '') and not (x.get('callee') or '').endswith('Silent')
+                     for x in walk_all_exprs(em[0]['body']))
+            ins = 'INSERTION' in ' '.join(show(x) for x in walk_all_exprs(em[0]['body']) if x.get('k') == 'bin')
+            if ok and ins and g2['q'] == 'get_replacement':
+                return True, 'the INSERTION token text was converted and index-checked in extract_macros'
+        return False, 'extract_macros no longer validates insertion tokens'
+    return False, 'no exception applies'
